@@ -162,6 +162,8 @@ def routine_result(sc):
             r.config.sparselib = sc["lib"]
         r.config.linsolve = sc["linsolve"]
     ss.config.ipadd = sc["ipadd"]
+    for k in sc.get("lines_off", []):            # branches taken out of service before the first routine (isolates a bus)
+        ss.Line.u.v[k] = 0
     ss.PFlow.config.method = sc["method"]
     ss.TDS.config.no_tqdm = 1
     ss.TDS.config.tf = sc.get("tf", 0.5)
